@@ -190,11 +190,16 @@ class Program:
         defs_by_file: dict[str, set[str]] = {}
         class_bases: dict[str, set[str]] = {}
         class_methods: list = []
+        raw_trees: dict = {}
+        class_home: dict = {}
         for p in files:
             try:
                 raw = ast.parse(p.read_text(), filename=str(p))
             except (SyntaxError, UnicodeDecodeError):
                 continue
+            raw_trees[str(p)] = raw
+            for cd0 in [x for x in raw.body if isinstance(x, ast.ClassDef)]:
+                class_home.setdefault(cd0.name, []).append((str(p), cd0))
             defs_by_file[str(p)] = {x.name for x in ast.walk(raw) if isinstance(x, (ast.FunctionDef, ast.AsyncFunctionDef))}
             for cd in [x for x in ast.walk(raw) if isinstance(x, ast.ClassDef)]:
                 class_bases.setdefault(cd.name, set()).update(b.id if isinstance(b, ast.Name) else b.attr for b in cd.bases if isinstance(b, (ast.Name, ast.Attribute)))
@@ -230,6 +235,7 @@ class Program:
                 elif key not in returns_arg:
                     returns_arg[key] = idx
         self.returns_arg = {k: v for k, v in returns_arg.items() if v is not None}
+        self._raw_trees, self._class_home = raw_trees, class_home
         for p in files:
             rel = p.relative_to(self.repo_root)
             parts = list(rel.with_suffix("").parts)
@@ -245,7 +251,7 @@ class Program:
                 from .normalize import normalize_module
 
                 try:
-                    tree = normalize_module(tree, returns_arg=self.returns_arg, foreign_refs=set().union(*[v for k, v in refs_by_file.items() if k != str(p)]) if refs_by_file else set(), foreign_defs=_foreign_overrides(str(p), class_bases, class_methods))
+                    tree = normalize_module(tree, inherited=self._inherited_helpers(p, tree), returns_arg=self.returns_arg, foreign_refs=set().union(*[v for k, v in refs_by_file.items() if k != str(p)]) if refs_by_file else set(), foreign_defs=_foreign_overrides(str(p), class_bases, class_methods))
                 except RecursionError as e:  # pragma: no cover
                     raise AnalysisError(f"normalisation of {rel} failed: {e}") from e
             _number_nodes(tree)
@@ -257,6 +263,73 @@ class Program:
         self.digest = h.hexdigest()
         for m in self.modules.values():
             self._index_module(m)
+
+    def _module_name_of(self, path) -> str:
+        rel = pathlib.Path(path).relative_to(self.repo_root)
+        parts = list(rel.with_suffix("").parts)
+        if parts[-1] == "__init__":
+            parts = parts[:-1]
+        return ".".join(parts)
+
+    def _inherited_helpers(self, path, tree) -> dict:
+        """{(subclass name, helper name): (FunctionDef copy, [import statements its free names need])} for private helpers
+        that classes of this module inherit from base classes defined in OTHER modules (uniquely named)."""
+        import builtins
+        import copy
+
+        out = {}
+        here = {c.name: c for c in tree.body if isinstance(c, ast.ClassDef)}
+        for cname, cd in here.items():
+            own = {b.name for b in cd.body if isinstance(b, ast.FunctionDef)}
+            todo = [b.id for b in cd.bases if isinstance(b, ast.Name)]
+            seen = set()
+            shadow = set(own)
+            while todo:
+                bn = todo.pop(0)
+                if bn in seen:
+                    continue
+                seen.add(bn)
+                if bn in here:
+                    shadow |= {b.name for b in here[bn].body if isinstance(b, ast.FunctionDef)}
+                    todo += [b.id for b in here[bn].bases if isinstance(b, ast.Name)]
+                    continue
+                homes = self._class_home.get(bn, [])
+                if len(homes) != 1 or homes[0][0] == str(path):
+                    continue
+                hpath, bcd = homes[0]
+                hmod = self._module_name_of(hpath)
+                htree = self._raw_trees[hpath]
+                top = {}
+                for st in htree.body:
+                    if isinstance(st, ast.ImportFrom):
+                        for a in st.names:
+                            absmod = st.module or ""
+                            if st.level:
+                                parts = hmod.split(".")
+                                if not hpath.endswith("__init__.py"):
+                                    parts = parts[:-1]
+                                if st.level > 1:
+                                    parts = parts[: len(parts) - (st.level - 1)]
+                                absmod = ".".join(parts + ([st.module] if st.module else []))
+                            top[a.asname or a.name] = ast.ImportFrom(module=absmod, names=[ast.alias(name=a.name, asname=a.asname)], level=0)
+                    elif isinstance(st, ast.Import):
+                        for a in st.names:
+                            top[a.asname or a.name.split(".")[0]] = ast.Import(names=[ast.alias(name=a.name, asname=a.asname)])
+                    elif isinstance(st, (ast.FunctionDef, ast.ClassDef)):
+                        top[st.name] = ast.ImportFrom(module=hmod, names=[ast.alias(name=st.name, asname=None)], level=0)
+                    elif isinstance(st, (ast.Assign, ast.AnnAssign)):
+                        for t in (st.targets if isinstance(st, ast.Assign) else [st.target]):
+                            if isinstance(t, ast.Name):
+                                top[t.id] = ast.ImportFrom(module=hmod, names=[ast.alias(name=t.id, asname=None)], level=0)
+                for b in bcd.body:
+                    if isinstance(b, ast.FunctionDef) and b.name.startswith("_") and not b.name.startswith("__") and b.name not in shadow and (cname, b.name) not in out:
+                        bound = {a.arg for a in b.args.posonlyargs + b.args.args + b.args.kwonlyargs} | {x.id for x in ast.walk(b) if isinstance(x, ast.Name) and isinstance(x.ctx, ast.Store)}
+                        free = {x.id for x in ast.walk(b) if isinstance(x, ast.Name) and isinstance(x.ctx, ast.Load)} - bound - set(dir(builtins))
+                        if all(g in top for g in free):
+                            out[(cname, b.name)] = (copy.deepcopy(b), [copy.deepcopy(top[g]) for g in sorted(free)], sorted(free))
+                shadow |= {b.name for b in bcd.body if isinstance(b, ast.FunctionDef)}
+                todo += [b.id for b in bcd.bases if isinstance(b, ast.Name)]
+        return out
 
     def _resolve_relative(self, m: Module, level: int, module: str | None) -> str:
         parts = m.name.split(".")
